@@ -22,7 +22,7 @@ sort $out | while IFS='|' read n nv props fail; do
   case $n in
     S*) [ "$nv" != 0 ] && ok=0; exp="silent";;
     F*) [ "$nv" = 0 ] && ok=0; exp="regression";;
-    C*-m*) p=${n%%-*}; exp="fires($p)"; echo "$props" | grep -q "$p" || { [ -d seeded/$n ] && [ "$nv" != 0 ] || ok=0; };;
+    C*-*m*) p=${n%%-*}; exp="fires($p)"; echo "$props" | grep -q "$p" || { [ -d seeded/$n ] && [ "$nv" != 0 ] || ok=0; };;
   esac
   [ -n "$fail" ] && ok=0
   printf "%-10s %-14s violations=%-3s props=%-40s %s %s\n" $n "$exp" $nv "$props" "$([ $ok = 1 ] && echo ok || echo UNEXPECTED)" "$fail"
